@@ -153,6 +153,8 @@ func runC11(r *Run, replay *Case) {
 					r.Add(c11GraphEval(g))
 				}
 			}
+		case "builtin":
+			c11Builtins(r)
 		case "typed":
 			r.Add(c11TypedEval(replay.Input["tpl"].(string), fromVal(replay.Input["x"].(map[string]any))))
 		case "bytes":
@@ -161,7 +163,7 @@ func runC11(r *Run, replay *Case) {
 		return
 	}
 	r.Res.Rule = "graph: include/layout graphs with every cycle shape (self, 2, 3, via slot content, in loop, in v-if, via component tag), diamond, deep chain, missing targets — each in an isolated child process; " +
-		"typed: 36 directive positions x 31 data values of every Go type incl. funcs, chans, unexported fields, non-string-keyed maps; bytes: mutated template and front-matter byte strings; non-trivial = every case"
+		"builtins: every function of DefaultFuncMap x 31 argument values incl. typed nils x 7 call forms x 2 positions; typed: 36 directive positions x 31 data values of every Go type incl. funcs, chans, unexported fields, non-string-keyed maps; bytes: mutated template and front-matter byte strings; non-trivial = every case"
 	for _, g := range c11Graphs() {
 		sub, verdict := runIsolated("C11", map[string]any{"stream": "graph", "desc": g.desc}, g.desc, 40*time.Second)
 		c := &Case{Name: g.desc, Input: map[string]any{"stream": "graph", "desc": g.desc}, Key: "graph:" + g.desc, Tags: []string{"stream:graph", "isolated"}}
@@ -179,6 +181,7 @@ func runC11(r *Run, replay *Case) {
 			r.Add(c11TypedEval(tpl, x))
 		}
 	}
+	c11Builtins(r)
 	n := 3000
 	if r.Thorough() {
 		n = 150000
